@@ -520,6 +520,9 @@ pub enum SOp {
     End,
     /// Toggle `!` between "other" and "comment".
     BangComment(bool),
+    /// Interaction mode (0 errorstop, 1 scroll, 2 nonstop, 3 batch): the terminal cannot be read in
+    /// the last two (TeX: "cannot \\read from terminal in nonstop modes"); not scoped by groups.
+    Mode(u8),
 }
 
 #[derive(Clone, Debug, Serialize, Deserialize)]
@@ -622,6 +625,7 @@ struct StreamModel {
     term_calls: u64,
     fs_reads: u64,
     bang: Vec<bool>,
+    mode: u8,
 }
 
 struct Expect {
@@ -639,6 +643,7 @@ impl StreamModel {
             term_calls: 0,
             fs_reads: 0,
             bang: vec![false],
+            mode: 0,
         }
     }
     fn lines_for(&self, content: &str) -> Vec<String> {
@@ -683,6 +688,7 @@ impl StreamModel {
                 }
             }
             SOp::BangComment(b) => *self.bang.last_mut().unwrap() = *b,
+            SOp::Mode(m) => self.mode = *m,
             SOp::Read { n, target } => {
                 let bang = *self.bang.last().unwrap();
                 let idx = if (0..16).contains(n) { Some(*n as usize) } else { None };
@@ -728,6 +734,9 @@ impl StreamModel {
                             break;
                         }
                     }
+                } else if self.mode >= 2 {
+                    // the terminal is not consulted at all
+                    failed = true;
                 } else {
                     loop {
                         let fault = case.term_faults.iter().any(|(k, _)| *k == self.term_calls);
@@ -800,20 +809,23 @@ impl StreamModel {
     }
 }
 
-const STREAM_FILE_NAMES: [&str; 4] = ["s0", "s_1", "s.2", "s$3"];
+/// (name as written after `\\openin n=`, name on the simulated disk). Names without an extension
+/// get `.tex`; the last two share their stem with the first and differ in the extension only.
+const STREAM_FILES: [(&str, &str); 6] = [
+    ("s0", "s0.tex"),
+    ("s_1", "s_1.tex"),
+    ("s.2.tex", "s.2.tex"),
+    ("s$3", "s$3.tex"),
+    ("s0.aux", "s0.aux"),
+    ("s0.txt", "s0.txt"),
+];
 
-fn stream_file_name(i: usize) -> String {
-    STREAM_FILE_NAMES[i % STREAM_FILE_NAMES.len()].to_string()
+fn stream_file_disk(i: usize) -> String {
+    STREAM_FILES[i % STREAM_FILES.len()].1.to_string()
 }
 
-/// The name as written after `\\openin n=`: dotted names carry their extension.
 fn stream_file_written(i: usize) -> String {
-    let n = stream_file_name(i);
-    if n.contains('.') {
-        format!("{n}.tex")
-    } else {
-        n
-    }
+    STREAM_FILES[i % STREAM_FILES.len()].0.to_string()
 }
 
 fn sop_text(op: &SOp) -> String {
@@ -827,6 +839,7 @@ fn sop_text(op: &SOp) -> String {
         SOp::Begin => "{".to_string(),
         SOp::End => "}".to_string(),
         SOp::BangComment(b) => format!("\\catcode33={} ", if *b { 14 } else { 12 }),
+        SOp::Mode(m) => ["\\errorstopmode ", "\\scrollmode ", "\\nonstopmode ", "\\batchmode "][*m as usize % 4].to_string(),
     }
 }
 
@@ -878,7 +891,7 @@ fn stream_job(case: &StreamCase) -> (Job, Vec<(usize, usize)>) {
                 .iter()
                 .enumerate()
                 .filter(|(_, (_, m, _))| !*m)
-                .map(|(i, (c, _, _))| (format!("{}.tex", stream_file_name(i)), c.clone().into_bytes()))
+                .map(|(i, (c, _, _))| (stream_file_disk(i), c.clone().into_bytes()))
                 .chain(std::iter::once(("s.tex".to_string(), b"TRUNCATED\n".to_vec())))
                 .collect(),
             terminal: case.terminal.clone(),
@@ -888,7 +901,7 @@ fn stream_job(case: &StreamCase) -> (Job, Vec<(usize, usize)>) {
                 .files
                 .iter()
                 .enumerate()
-                .filter_map(|(i, (_, _, f))| f.map(|k| (format!("{}.tex", stream_file_name(i)), k)))
+                .filter_map(|(i, (_, _, f))| f.map(|k| (stream_file_disk(i), k)))
                 .collect(),
             fs_write_faults: vec![],
         },
@@ -936,7 +949,9 @@ fn gen_streams(rng: &mut Rng, with_faults: bool) -> StreamCase {
         "t\u{b}", "u\u{a0}", "v\u{2003} ", "\u{3000}", "w\u{85}", "{x\u{a0}", "y}\u{b}", "\u{a0}z\u{2028}",
         "a\t", "\tb", "c \t", "{d\t}", "\t",
     ];
-    let nfiles = 1 + rng.below(4);
+    // One to four files; one case in four has five or six, the extra ones sharing the stem of
+    // the first (`s0.tex`, `s0.aux`, `s0.txt`).
+    let nfiles = if rng.chance(1, 4) { 5 + rng.below(2) } else { 1 + rng.below(4) };
     let mut files = vec![];
     for _ in 0..nfiles {
         let n = rng.below(6);
@@ -1040,7 +1055,11 @@ fn gen_streams(rng: &mut Rng, with_faults: bool) -> StreamCase {
                 SOp::CloseIn { n }
             }
         } else {
-            SOp::BangComment(rng.chance(1, 2))
+            if rng.chance(1, 2) {
+                SOp::BangComment(rng.chance(1, 2))
+            } else {
+                SOp::Mode(rng.below(4) as u8)
+            }
         });
     }
     let term_faults = if rng.chance(1, 10) {
